@@ -19,7 +19,7 @@ def run(ctx):
                   invariants=inv, properties=['AbortRestores', 'UndoSemantics'])
     S.model_check(ctx, 'file-3x1-mix', sd.consts('file', NOid=5, MaxTxn=3, MaxRecs=1, AtomVals=('v1',), Cls='MCClsMix', MaxClock=1),
                   invariants=inv, properties=['AbortRestores'], timeout=900)
-    big = dict(NOid=5, Metas=('m0',), MaxTxn=8, MaxRecs=2, MaxClock=2, RefSets='FewRefs', Cls='MCClsMix')
+    big = dict(NOid=6, Metas=('m0',), MaxTxn=8, MaxRecs=2, MaxClock=2, RefSets='FewRefs', Cls='MCClsMix')
     num = 400 if q else 6000
     c = sd.consts('file', **big)
     files = S.simulate(ctx, 'file', c, num=num, depth=70, seed=ctx.seed + 11, next_='NextResolve')
@@ -28,9 +28,9 @@ def run(ctx):
     return ctx.finish({
         'evaluations': cov['behaviours'],
         'distinct_nontrivial': cov['nontrivial'],
-        'rule': 'TLC -simulate behaviours of ZStorage under NextResolve over 5 oids whose classes are plain / resolver '
+        'rule': 'TLC -simulate behaviours of ZStorage under NextResolve over 6 oids whose classes are plain / resolver '
                 'returning a term that embeds its three arguments / resolver raising / class not importable / resolver '
-                'raising ConflictError; states carry references (none / one / two); stores use stale serials so that '
+                'raising ConflictError / resolver of a class with constructor arguments whose state shares an object with the class part of the record; states carry references (none / one / two); stores use stale serials so that '
                 'tryToResolveConflict runs (store path) and undo with later changes runs it on the undo path; the stored '
                 'record read back must be exactly Merge(state at the supplied serial, committed state, new state) with '
                 'the union of references, tpc_vote must return exactly the resolved oids, unresolvable cases must raise '
